@@ -32,8 +32,6 @@ def known_finding(case, kind, detail):
     if rule == "PluralityVeto":
         if "Err(EFuel)" in d:
             return "plurality-veto-nontermination"
-        if "PluralityVeto groups do not list every candidate" in d:
-            return "plurality-veto-omits-candidates"
         if "Err(EType)" in d and cfg.get("tiebreak") in ("borda", "first_place"):
             return "plurality-veto-scored-tiebreak"
         if "Err(EUnbound)" in d and not any(b.get("r") for b in case["profile"]["ballots"]):
